@@ -1,8 +1,25 @@
 (* Client/Sound_KaGap_aux.v — lemmas for Client/Sound_KaGap.v (C33 clause 1, the gap clause of Checkers/ChkCl4.v).
    Part A (lists of marks): the monitor merges the PINGREQ marks and the state-change marks of a step by time
      (changes first at equal times); when the marks are emitted in time order, folding gap_step over the
-     merged list equals folding it in emission order (merge_fold), also under the monitor's time filter
-     (merge_fold_filter); failures only accumulate (fold_nofail_prefix, nofail_filter). *)
+     merged list equals folding it in emission order (merge_fold_all), also under a time filter that keeps the
+     earlier marks (merge_fold_filter); a PINGREQ and a change at one instant commute (gap_swap); failures only
+     accumulate (fold_nofail_prefix, nofail_filter); emarks: the marks of a list of outputs in emission order, and
+     what kmon_step computes from them (mon_pings_emarks, mon_chgs_emarks).
+   Part C (outputs of cl_step): OutOK - every datagram of a micro-step is written at the instant of the step and no
+     call returns RCancelled (only c_exit does); run_timers_inst / cl_step_adv_inst: an advance to an instant T that is
+     not later than any timer or the pending exit happens entirely AT T (sn_at), a return "cancelled" means the group
+     is cancelled, timers never make the client active, the exit time of a cancelled group does not change;
+     cl_step_user_out: the same for calls and datagrams.
+   Part B (the loop's transaction object, the "busy half"): LO b g n tm s - object g is the ping of call b
+     (CxRetry b 5 PINGREQ CtNone (Pingreq []) n b) and tm is its only timer, a retry timer.  Frame lemmas over all of
+     cl_step: cl_step_user_LK (calls, datagrams: LO is kept unless CoRet _ b _ is among the outputs or the group is
+     cancelled), cl_step_adv_LO (an advance to an instant T: LO is kept with the same timer, or the timer fired, a
+     PINGREQ was written at T and the new timer is due at T + RetryDelay, or the call returned / the group is
+     cancelled), ping_start (the loop's CCall id APing: one PINGREQ, a new object with its timer at now + RetryDelay).
+   Part D: CB B s - the call identifiers of the live transactions are below B - is kept by cl_step (CB_step): the
+     identifiers of the loop's internal calls are fresh.
+   Part E: CT / cl_step_CT - when a step cancels the group, the exit time is between now and now + readTimeout;
+     user_step_now_eq - calls and datagrams do not move the clock. *)
 From stdpp Require Import base option list numbers fin_maps nmap.
 From Coq Require Import Lia ZArith ZifyN ZifyNat ZifyBool.
 From RecordUpdate Require Import RecordSet.
@@ -1094,8 +1111,6 @@ Proof.
     destruct (c_run_timers _ _ _ _) as [s1 o1]. cbn [fst] in *. eapply CB_ext; [|exact H1]. reflexivity.
 Qed.
 
-Lemma CB_mono s B' : CB s -> B <= B' -> forall g t c, cl_objs s !! g = Some t -> call_of t = Some c -> c < B'.
-Proof. intros H Hle g t c Hg Hc. pose proof (H g t c Hg Hc). lia. Qed.
 End CallBound.
 
 (* ================================================================== Part E: when the group is cancelled, the exit is at most readTimeout away *)
